@@ -8,7 +8,11 @@ From PyLib Require Import PyVal PyBuiltins Ideal.
 From Spec Require Import AngleSpec.
 From Gen Require Import M_base M_Angle M_Epoch M_Coordinates.
 From Gen Require M_Mercury M_Venus M_Earth M_Mars M_Jupiter M_Saturn M_Uranus M_Neptune.
+#[local] Set Warnings "-ambiguous-paths".
+From Coquelicot Require Import Coquelicot.
 From Proofs.C07 Require Import C07_defs C07_lib C07_angle C07_sec C07_series C07_corr C07_const C07_elem.
+From Proofs.C07 Require Import C07_mono C07_dec C07_mono_code.
+From Proofs.C07 Require C07_mono_mercury C07_mono_venus C07_mono_earth C07_mono_mars C07_mono_jupiter C07_mono_saturn C07_mono_uranus C07_mono_neptune.
 Import ListNotations.
 Open Scope R_scope.
 
@@ -137,6 +141,54 @@ Proof.
   - exact (orbital_elements_4 jde rl ra re ri rn rp jl ji jn jp Hj).
 Qed.
 
+(* 7. Longitude only ever increases.
+   (a) any tables: the series S(t) = direct_sum t T is differentiable with the term-by-term
+   derivative; with A* the secular rate (first term of the t^1 series, B = C = 0) the derivative is
+   at least A* - sum' |A|(i M^(i-1) + |C| M^i) for |t| <= M (sum' over all other terms), and S is
+   strictly increasing on [-M, M] when that sum is below A*. *)
+Theorem C07_series_derivative :
+  (forall T t, is_derive (fun t => direct_sum t T) t (sumR (ddterms t 0 T))) /\
+  (forall s0 x1 s1 rest t M, tB x1 = 0 -> tC x1 = 0 -> Rabs t <= M ->
+     tA x1 - dbound M 0 (s0 :: s1 :: rest) <= sumR (ddterms t 0 (s0 :: (x1 :: s1) :: rest))) /\
+  (forall s0 x1 s1 rest M, tB x1 = 0 -> tC x1 = 0 -> dbound M 0 (s0 :: s1 :: rest) < tA x1 ->
+     forall t1 t2, - M <= t1 -> t1 < t2 -> t2 <= M ->
+     direct_sum t1 (s0 :: (x1 :: s1) :: rest) < direct_sum t2 (s0 :: (x1 :: s1) :: rest)).
+Proof. exact (conj direct_sum_derive (conj derivative_lower_bound direct_sum_increasing)). Qed.
+
+(* (b) the eight planets: the tables VSOP87_L/B/R of the regenerated modules are read by
+   computation as exact decimals; the kernel checks in integer arithmetic that the amplitude sum is
+   below the secular rate for |t| <= 4 millennia; hence vsop_pos on these tables returns the
+   reduced form of an UNREDUCED longitude [ulon TL jde] (degrees) that is strictly increasing in
+   the epoch over jde_lo .. jde_hi = years -2000 .. 6000 (longitude_increasing: C07_mono_code.v) *)
+Theorem C07_longitude_increasing :
+  longitude_increasing (M_Mercury.g_VSOP87_L Rops) (M_Mercury.g_VSOP87_B Rops) (M_Mercury.g_VSOP87_R Rops) /\
+  longitude_increasing (M_Venus.g_VSOP87_L Rops) (M_Venus.g_VSOP87_B Rops) (M_Venus.g_VSOP87_R Rops) /\
+  longitude_increasing (M_Earth.g_VSOP87_L Rops) (M_Earth.g_VSOP87_B Rops) (M_Earth.g_VSOP87_R Rops) /\
+  longitude_increasing (M_Mars.g_VSOP87_L Rops) (M_Mars.g_VSOP87_B Rops) (M_Mars.g_VSOP87_R Rops) /\
+  longitude_increasing (M_Jupiter.g_VSOP87_L Rops) (M_Jupiter.g_VSOP87_B Rops) (M_Jupiter.g_VSOP87_R Rops) /\
+  longitude_increasing (M_Saturn.g_VSOP87_L Rops) (M_Saturn.g_VSOP87_B Rops) (M_Saturn.g_VSOP87_R Rops) /\
+  longitude_increasing (M_Uranus.g_VSOP87_L Rops) (M_Uranus.g_VSOP87_B Rops) (M_Uranus.g_VSOP87_R Rops) /\
+  longitude_increasing (M_Neptune.g_VSOP87_L Rops) (M_Neptune.g_VSOP87_B Rops) (M_Neptune.g_VSOP87_R Rops).
+Proof.
+  exact (conj C07_mono_mercury.mercury_longitude_increasing (conj C07_mono_venus.venus_longitude_increasing (conj C07_mono_earth.earth_longitude_increasing (conj C07_mono_mars.mars_longitude_increasing (conj C07_mono_jupiter.jupiter_longitude_increasing (conj C07_mono_saturn.saturn_longitude_increasing (conj C07_mono_uranus.uranus_longitude_increasing C07_mono_neptune.neptune_longitude_increasing))))))).
+Qed.
+
+(* 8. Amplitude envelopes (weaker than the property's physical envelope; the integers nB, nR are
+   computed from the tables by the kernel): over years -2000 .. 6000
+   |latitude series| <= nB / 1e23 rad, |radius series - constant term| <= nR / 1e23 AU *)
+Theorem C07_envelope_partial :
+  series_envelope (M_Mercury.g_VSOP87_L Rops) (M_Mercury.g_VSOP87_B Rops) (M_Mercury.g_VSOP87_R Rops) C07_mono_mercury.nB C07_mono_mercury.nR /\
+  series_envelope (M_Venus.g_VSOP87_L Rops) (M_Venus.g_VSOP87_B Rops) (M_Venus.g_VSOP87_R Rops) C07_mono_venus.nB C07_mono_venus.nR /\
+  series_envelope (M_Earth.g_VSOP87_L Rops) (M_Earth.g_VSOP87_B Rops) (M_Earth.g_VSOP87_R Rops) C07_mono_earth.nB C07_mono_earth.nR /\
+  series_envelope (M_Mars.g_VSOP87_L Rops) (M_Mars.g_VSOP87_B Rops) (M_Mars.g_VSOP87_R Rops) C07_mono_mars.nB C07_mono_mars.nR /\
+  series_envelope (M_Jupiter.g_VSOP87_L Rops) (M_Jupiter.g_VSOP87_B Rops) (M_Jupiter.g_VSOP87_R Rops) C07_mono_jupiter.nB C07_mono_jupiter.nR /\
+  series_envelope (M_Saturn.g_VSOP87_L Rops) (M_Saturn.g_VSOP87_B Rops) (M_Saturn.g_VSOP87_R Rops) C07_mono_saturn.nB C07_mono_saturn.nR /\
+  series_envelope (M_Uranus.g_VSOP87_L Rops) (M_Uranus.g_VSOP87_B Rops) (M_Uranus.g_VSOP87_R Rops) C07_mono_uranus.nB C07_mono_uranus.nR /\
+  series_envelope (M_Neptune.g_VSOP87_L Rops) (M_Neptune.g_VSOP87_B Rops) (M_Neptune.g_VSOP87_R Rops) C07_mono_neptune.nB C07_mono_neptune.nR.
+Proof.
+  exact (conj C07_mono_mercury.mercury_envelope_partial (conj C07_mono_venus.venus_envelope_partial (conj C07_mono_earth.earth_envelope_partial (conj C07_mono_mars.mars_envelope_partial (conj C07_mono_jupiter.jupiter_envelope_partial (conj C07_mono_saturn.saturn_envelope_partial (conj C07_mono_uranus.uranus_envelope_partial C07_mono_neptune.neptune_envelope_partial))))))).
+Qed.
+
 Redirect "C07_series_evaluator.assumptions" Print Assumptions C07_series_evaluator.
 Redirect "C07_horner_is_direct_sum.assumptions" Print Assumptions C07_horner_is_direct_sum.
 Redirect "C07_vsop_longitude_range.assumptions" Print Assumptions C07_vsop_longitude_range.
@@ -147,3 +199,6 @@ Redirect "C07_corrected_longitude_range.assumptions" Print Assumptions C07_corre
 Redirect "C07_table_constants.assumptions" Print Assumptions C07_table_constants.
 Redirect "C07_earth_j2000_rate.assumptions" Print Assumptions C07_earth_j2000_rate.
 Redirect "C07_orbital_elements.assumptions" Print Assumptions C07_orbital_elements.
+Redirect "C07_series_derivative.assumptions" Print Assumptions C07_series_derivative.
+Redirect "C07_longitude_increasing.assumptions" Print Assumptions C07_longitude_increasing.
+Redirect "C07_envelope_partial.assumptions" Print Assumptions C07_envelope_partial.
